@@ -201,10 +201,15 @@ def run_program(chk, sc, pi, per_prog, olevels, with_asan):
                     log("[C12] asan link failed:", lp.err[-800:])
                     chk.inconclusive += 1
                 else:
-                    rp = vlib.run_exe(exe, env_extra=vlib.ASAN_ENV, cpu_s=60, wall_s=120)
+                    rp = run_asan_exe(exe)
                     judge_program(chk, "compiled-asan", 1, safe, rp, atext, ajson)
     import shutil
     shutil.rmtree(d, ignore_errors=True)
+
+
+def run_asan_exe(exe):
+    # not vlib.run_exe: its address-space limit keeps ASan from reserving its shadow memory
+    return vlib.run([exe], cwd=os.path.dirname(exe), env=vlib.base_env(vlib.ASAN_ENV), wall_s=120, cpu_s=60)
 
 
 def judge_program(chk, part, O, hs, rp, text, hjson):
@@ -217,7 +222,7 @@ def judge_program(chk, part, O, hs, rp, text, hjson):
     if rp.rc != 0 or rp.cpu_killed or "<<END>>" not in rp.out:
         sym = "cpu limit (loop?)" if rp.cpu_killed else M.classify_death(rp.rc, rp.err)
         fr = M._FRAME.search(rp.err)
-        sig = {"part": part, "op": "(program)", "history": "program of %d histories" % len(hs), "symptom": sym, "O": O}
+        sig = {"part": part, "op": "(program)", "history": "whole program", "symptom": sym, "O": O}
         if fr:
             sig["frame"] = fr.group(1)
         chk.violation(sig, files=files, text="program ended with status %s after %d observations\n%s" % (rp.rc, len(obs), rp.err[:3000]))
@@ -278,10 +283,17 @@ def run(tier):
         "compiled for-each loops carry a guard that leaves after 40 rounds, so that a loop that does not end is a finding and not a hang",
     ]
     with Scratch("c12") as sc:
+        import time
         drv_asan, drv_plain = get_drivers(sc)
+        t0 = time.time()
         part_sweep(chk, drv_asan, drv_plain)
+        t1 = time.time()
         part_direct(chk, sc, drv_asan, drv_plain, total, chunk)
+        t2 = time.time()
         part_compiled(chk, sc, nprog, per_prog, olevels)
+        t3 = time.time()
+        chk.extra["wall_s_parts"] = {"sweep": round(t1 - t0, 1), "direct": round(t2 - t1, 1), "compiled": round(t3 - t2, 1)}
+        log("[C12] wall: sweep %.1fs, direct histories %.1fs, compiled programs %.1fs" % (t1 - t0, t2 - t1, t3 - t2))
     return chk.finish(min_events=1000)
 
 
@@ -304,7 +316,7 @@ def replay(path):
             cmds = [M.parse_direct_cmd(l) for l in stream.split("\n")[1:] if l and l != "E"]
             bad = 0
             for name, drv, asan in (("asan", drv_asan, True), ("plain", drv_plain, False)):
-                blocks, _, problem = D.run_all(drv, asan, [(stream.split("\n")[0].split()[1], cmds)])
+                blocks, _, problem = D.run_all(drv, asan, [(stream.split("\n")[0].split()[1], cmds)], symbolize=True)
                 for b in blocks.values():
                     f, _, _ = M.judge_direct(cmds, b)
                     for s, t in f:
@@ -323,7 +335,7 @@ def replay(path):
             exe = os.path.join(sc.path, "p_asan")
             if cp.rc == 0:
                 vlib.link_asan(obj, exe)
-            rp = vlib.run_exe(exe, env_extra=vlib.ASAN_ENV, cpu_s=60, wall_s=120) if os.path.exists(exe) else None
+            rp = run_asan_exe(exe) if os.path.exists(exe) else None
         else:
             exe = os.path.join(sc.path, "p")
             cp = vlib.kddp_compile(src, exe, O=cfg["O"])
